@@ -310,3 +310,10 @@ MUTANTS["C12"] += [
     ("val_xx setter drops bit 7 of the new value when the old YY byte is 0xA5",
      [("rv/note.py", "        self.val = (self.val & 0x00FF) | ((value & 0xFF) << 8)", "        self.val = (self.val & 0x00FF) | ((value & (0x7F if (self.val & 0xFF) == 0xA5 else 0xFF)) << 8)")]),
 ]
+
+MUTANTS["C17"] += [
+    ("module under construction is parked in a module-level dict and reused by the next load of that type if the previous load failed",
+     [("rv/readers/module.py", "        cls = MODULE_CLASSES[mtype]\n        new_module: Module = cls()", "        cls = MODULE_CLASSES[mtype]\n        new_module: Module = _PENDING.pop(mtype, None) or cls()\n        _PENDING[mtype] = new_module"),
+      ("rv/readers/module.py", "    def process_SEND(self, data):\n        self._load_last_chunk()", "    def process_SEND(self, data):\n        _PENDING.pop(getattr(self.object, \"mtype\", None), None)\n        self._load_last_chunk()"),
+      ("rv/readers/module.py", "class ModuleReader(Reader):", "_PENDING = {}\n\n\nclass ModuleReader(Reader):")]),
+]
